@@ -297,6 +297,7 @@ yprp_extension_instance(struct lys_ypr_ctx *pctx, enum ly_stmt substmt, uint8_t 
 {
     struct lysp_stmt *stmt;
     ly_bool child_presence;
+    LY_ARRAY_COUNT_TYPE u;
 
     if ((ext->flags & LYS_INTERNAL) || (ext->parent_stmt != substmt) || (ext->parent_stmt_index != substmt_index)) {
         return;
@@ -323,6 +324,18 @@ yprp_extension_instance(struct lys_ypr_ctx *pctx, enum ly_stmt substmt, uint8_t 
             child_presence = 1;
         }
         yprp_stmt(pctx, stmt);
+    }
+
+    /* extension instances written directly in this one */
+    LY_ARRAY_FOR(ext->exts, u) {
+        if ((ext->exts[u].flags & LYS_INTERNAL) || (ext->exts[u].parent_stmt != LY_STMT_EXTENSION_INSTANCE)) {
+            continue;
+        }
+        if (!child_presence) {
+            ly_print_(pctx->out, " {\n");
+            child_presence = 1;
+        }
+        yprp_extension_instance(pctx, LY_STMT_EXTENSION_INSTANCE, ext->exts[u].parent_stmt_index, &ext->exts[u], NULL);
     }
     LEVEL--;
     if (child_presence) {
